@@ -508,6 +508,11 @@ def _no_shared_results(ctx):
     r6_memoised_results(ctx, ("bionumpy.io.indexed_fasta", "bionumpy.io.indexed_files", "bionumpy.genomic_data.genomic_sequence"))   # what the indexed file reports is not a shared, writable object
 
 
+
+def _round7_code_tables(ctx):
+    from .round7 import code_lookup_tables
+    n = code_lookup_tables(ctx, ["bionumpy.genomic_data.genomic_sequence", "bionumpy.io.indexed_fasta", "bionumpy.genomic_data.genome"], "C17-R8")
+
 RULES = [
     ("C17-R1", r1_roles),
     ("C17-R2", r2_byte_arithmetic),
@@ -518,4 +523,5 @@ RULES = [
     ("C17-R5", _interval_order_restored),
     ("C17-R6", _index_reads_every_record_once),
     ("C17-R7", _no_shared_results),
+    ("C17-R8", _round7_code_tables),
 ]
